@@ -333,7 +333,7 @@ impl MemberKind {
 
         if let Some((prefix, n)) = value.find(char::is_numeric).and_then(|i| {
             let (prefix, n) = value.split_at(i);
-            Some((prefix, n.parse::<u32>().ok()?))
+            Some((prefix, parse_canonical::<u32>(n)?))
         }) {
             match (prefix, n) {
                 ("bytes", n) if (1..=32).contains(&n) => return MemberKind::Bytes(Some(n as _)),
@@ -348,7 +348,7 @@ impl MemberKind {
         }
         if let Some((prefix, n)) = value.strip_suffix(']').and_then(|value| {
             let (prefix, n) = value.rsplit_once('[')?;
-            Some((prefix, n.parse::<usize>().ok()?))
+            Some((prefix, parse_canonical::<usize>(n)?))
         }) {
             return MemberKind::Array(Box::new(MemberKind::from_str(prefix)), Some(n));
         }
@@ -363,6 +363,16 @@ impl MemberKind {
             _ => None,
         }
     }
+}
+
+/// Parses a decimal size that is written in its canonical form only: a type
+/// such as `uint0256` or `bytes32[+2]` is not another spelling of `uint256` or
+/// `bytes32[2]`.
+fn parse_canonical<T>(s: &str) -> Option<T>
+where
+    T: std::str::FromStr + ToString,
+{
+    s.parse::<T>().ok().filter(|n| n.to_string() == s)
 }
 
 impl Display for MemberKind {
